@@ -1614,6 +1614,11 @@ func (e *Entry) dup() *Entry {
 		}
 	}
 
+	// merge appends to Exts, so the copy needs its own slice.
+	if e.Exts != nil {
+		ne.Exts = append([]*Statement(nil), e.Exts...)
+	}
+
 	ne.Extra = make(map[string][]interface{})
 	for k, v := range e.Extra {
 		// merge appends to these slices, so the copy needs its own.
